@@ -131,14 +131,19 @@ theorem popFull_entryInv (o : Ops) (s : MSt) (el : Str) (h : EntryInv s.c) : Ent
           · exact h
           · split
             · rename_i hin
+              have hin' : s.c.inentry = true := by simp only [Bool.and_eq_true] at hin; exact hin.1
               intro _
-              simp only
-              split
-              · exact updHead_ne_nil _ _ (updHead_ne_nil _ _ (h hin))
-              · exact updHead_ne_nil _ _ (h hin)
+              exact updHead_ne_nil _ _ (h hin')
             · split
-              · exact h
-              · exact h
+              · rename_i hin
+                intro _
+                simp only
+                split
+                · exact updHead_ne_nil _ _ (updHead_ne_nil _ _ (h hin))
+                · exact updHead_ne_nil _ _ (h hin)
+              · split
+                · exact h
+                · exact h
 
 theorem popContent_entryInv (o : Ops) (s : MSt) (k : Str) (h : EntryInv s.c) : EntryInv (popContent o s k).2.c :=
   fun hi => popFull_entryInv o s k h hi
@@ -151,6 +156,26 @@ theorem step_entryInv (o : Ops) (s : MSt) (e : MEv) (s' : MSt) (h : EntryInv s.c
     · cases hs
     simp only [startTag0] at hs
     have hp := startPre_entryInv o s.c tag attrs h
+    cases hx : extKind (handlerName (startPre o s.c tag attrs).1 tag) with
+    | some kind =>
+      rw [hx] at hs
+      simp only at hs
+      cases hr : startExt (startPre o s.c tag attrs).1 kind (startPre o s.c tag attrs).2 with
+      | error w => rw [hr] at hs; simp [applyExt] at hs
+      | ok r =>
+        obtain ⟨c', es⟩ := r
+        have hf := startExt_frame _ _ _ _ _ hr
+        rw [hr] at hs
+        simp only [applyExt, Outcome.ok.injEq] at hs
+        rw [← hs]
+        intro hi
+        simp only at hi ⊢
+        rw [hf.1]
+        rw [hf.2.1] at hi
+        exact hp hi
+    | none =>
+    rw [hx] at hs
+    simp only at hs
     cases hd : dispatchCore (startPre o s.c tag attrs).1 (handlerName (startPre o s.c tag attrs).1 tag) (startPre o s.c tag attrs).2 with
     | error w => rw [hd] at hs; simp [applyDispatch] at hs
     | ok r =>
@@ -163,7 +188,16 @@ theorem step_entryInv (o : Ops) (s : MSt) (e : MEv) (s' : MSt) (h : EntryInv s.c
   | stop tag =>
     simp only [mstep, endTag] at hs
     split at hs
-    · obtain ⟨k, top, rest, _, _, _, hs'⟩ := endContent_ok o s s' _ hs
+    · split at hs
+      · rename_i kind _
+        rw [endExt_ok o s s' kind hs]
+        have hf := endExtCore_frame o s kind
+        have hp := popContent_entryInv o s (endPlan s.c kind).1 h
+        intro hi
+        simp only [endFinish] at hi ⊢
+        rw [hf.1] at hi
+        exact endExtCore_nonempty o s kind (hp hi)
+      obtain ⟨k, top, rest, _, _, _, hs'⟩ := endContent_ok o s s' _ hs
       rw [hs']
       have ha := afterTitle_frame k (popContent o s k)
       have hp := popContent_entryInv o s k h
@@ -220,17 +254,18 @@ handler-less elements — it yields a state: `pop` on an empty or mismatched sta
 def Modelled (c : Core) : MEv → Prop
   | .start tag attrs =>
       c.incontent = false ∧
-      ∀ o : Ops, (dispatchCore (startPre o c tag attrs).1 (handlerName (startPre o c tag attrs).1 tag) (startPre o c tag attrs).2).isOk = true
+      ∀ o : Ops, extKind (handlerName (startPre o c tag attrs).1 tag) = none ∧
+        (dispatchCore (startPre o c tag attrs).1 (handlerName (startPre o c tag attrs).1 tag) (startPre o c tag attrs).2).isOk = true
   | .stop tag => let h := handlerName c tag
-      c.incontent = false ∧ contentEndKey h = none ∧
+      c.incontent = false ∧ contentEndKey h = none ∧ extKind h = none ∧
       (h == S "channel" || h == S "feed" || h == S "item" || h == S "entry" || (dateKey h).isSome || !hasEnd h) = true
   | _ => True
 
 theorem step_total (o : Ops) (s : MSt) (e : MEv) (hm : Modelled s.c e) : ∃ s', mstep o s e = .ok s' := by
   cases e with
   | start tag attrs =>
-    simp only [mstep, startTag, hm.1, Bool.false_eq_true, ↓reduceIte, startTag0]
-    have := hm.2 o
+    simp only [mstep, startTag, hm.1, Bool.false_eq_true, ↓reduceIte, startTag0, (hm.2 o).1]
+    have := (hm.2 o).2
     cases hd : dispatchCore (startPre o s.c tag attrs).1 (handlerName (startPre o s.c tag attrs).1 tag) (startPre o s.c tag attrs).2 with
     | error w => rw [hd] at this; simp [Except.isOk, Except.toBool] at this
     | ok r =>
@@ -240,8 +275,8 @@ theorem step_total (o : Ops) (s : MSt) (e : MEv) (hm : Modelled s.c e) : ∃ s',
       | some el => exact ⟨_, rfl⟩
   | stop tag =>
     simp only [Modelled] at hm
-    obtain ⟨hm1, hm2, hm⟩ := hm
-    simp only [mstep, endTag, hm1, hm2, Bool.false_eq_true, ↓reduceIte, Option.isSome_none, endTag0]
+    obtain ⟨hm1, hm2, hm3, hm⟩ := hm
+    simp only [mstep, endTag, hm1, hm2, hm3, Bool.false_eq_true, ↓reduceIte, Option.isSome_none, Bool.or_self, endTag0]
     by_cases c1 : (handlerName s.c tag == S "channel" || handlerName s.c tag == S "feed") = true
     · simp only [c1, ↓reduceIte]; exact ⟨_, rfl⟩
     · simp only [c1, Bool.false_eq_true, ↓reduceIte]
